@@ -40,9 +40,19 @@ type windowD struct {
 	Late     []latePair `json:"late,omitempty"`     // retained responses read again later
 	Overlaps int64      `json:"overlaps,omitempty"` // concurrent entries into one node's Process during the window
 	LateBad  int        `json:"late_mismatches,omitempty"`
+	Fresh    []freshPair `json:"fresh,omitempty"` // live artifact vs fresh instance with the same parameter values
+	FreshBad int         `json:"fresh_mismatches,omitempty"`
 }
 
-func (w *windowD) flagged() bool { return w.GoNonLin || w.Timeout || w.LateBad > 0 || w.Overlaps > 0 }
+type freshPair struct {
+	Prod  int   `json:"prod"`
+	Live  respD `json:"live"`
+	Fresh respD `json:"fresh"`
+}
+
+func (w *windowD) flagged() bool {
+	return w.GoNonLin || w.Timeout || w.LateBad > 0 || w.Overlaps > 0 || w.FreshBad > 0
+}
 
 var (
 	jitterFlag    = flag.Int("jitter", 8, "max busy wait (microseconds) between input reads inside harness-defined nodes; 0 = none")
@@ -541,12 +551,12 @@ func (g *liveGraph) prime(cur []int, clock *atomic.Uint64) {
 			}
 		}
 	}
+	// every producer is evaluated once (all node caches hold the initial state: a node that fails later has
+	// succeeded before); artifacts that keep slices are retained
 	for k, pr := range g.shape.Prods {
-		if pr.Kind != "" {
-			rc := g.do(0, opD{K: "a", Prod: k}, clock)
-			if rc.Resp.K == "art" {
-				g.retained = append(g.retained, &rc)
-			}
+		rc := g.do(0, opD{K: "a", Prod: k}, clock)
+		if pr.Kind != "" && rc.Resp.K == "art" {
+			g.retained = append(g.retained, &rc)
 		}
 	}
 }
@@ -564,7 +574,37 @@ func (g *liveGraph) primeGuarded(cur []int, clock *atomic.Uint64) bool {
 }
 
 // oneWindow: run the programs of w on g, read the state at the following quiescent point, re-read retained responses
-func oneWindow(g *liveGraph, w *windowD, clock *atomic.Uint64) {
+// freshOracle (quiescent, main goroutine): the artifact the live instance serves now (through its caches) against
+// the artifact of a FRESH instance built with the same parameter values; which = producer index, -1 = all
+func freshOracle(g *liveGraph, w *windowD, which int, clock *atomic.Uint64) {
+	done := make(chan bool, 1)
+	go func() {
+		defer func() { done <- true }()
+		fg := build(g.shape, w.Final, &jit{})
+		for k := range g.shape.Prods {
+			if which >= 0 && k != which%len(g.shape.Prods) {
+				continue
+			}
+			live := g.do(0, opD{K: "a", Prod: k}, clock)
+			fr := fg.do(0, opD{K: "a", Prod: k}, clock)
+			w.Fresh = append(w.Fresh, freshPair{Prod: k, Live: live.Resp, Fresh: fr.Resp})
+		}
+	}()
+	select {
+	case <-done:
+	case <-time.After(*windowTimeout + *windowTimeout/2):
+		w.Fresh = []freshPair{{Prod: 0, Live: respD{K: "fail"}, Fresh: respD{K: "art"}}}
+	}
+	w.FreshBad = 0
+	for _, f := range w.Fresh {
+		if !respEq(f.Live, f.Fresh) {
+			w.FreshBad++
+		}
+	}
+	w.Overlaps += g.over.Swap(0) // the live read evaluates nodes too
+}
+
+func oneWindow(g *liveGraph, w *windowD, which int, clock *atomic.Uint64) {
 	g.over.Store(0)
 	recs, to := runWindow(g, w.Progs, clock)
 	w.Timeout = to
@@ -580,6 +620,12 @@ func oneWindow(g *liveGraph, w *windowD, clock *atomic.Uint64) {
 	finishWindow(w, recs)
 	if !w.Timeout {
 		afterWindow(g, w)
+		for _, v := range w.Final { // only when every parameter could be read
+			if v == 999999 {
+				return
+			}
+		}
+		freshOracle(g, w, which, clock)
 	} else {
 		w.Overlaps = g.over.Swap(0)
 	}
@@ -599,15 +645,20 @@ func toCase(w *windowD, kindPrefix string) hx.Case {
 		ls = append(ls, fmt.Sprintf("L %s %s", coqResp(l.Orig), coqResp(l.Late)))
 	}
 	late := "[" + strings.Join(ls, "; ") + "]"
+	var fs []string
+	for _, f := range w.Fresh {
+		fs = append(fs, fmt.Sprintf("L %s %s", coqResp(f.Live), coqResp(f.Fresh)))
+	}
+	fresh := "[" + strings.Join(fs, "; ") + "]"
 	var coq, kind string
 	if w.Threads == 1 && len(w.VReads) == 0 && w.Overlaps == 0 {
 		// program order = stamp order for a single client
 		kind = "seq"
-		coq = fmt.Sprintf("CSeq %s %d %s %s %d %s", coqNs(w.Init), w.Ver, calls, coqNs(w.Final), w.VerAfter, late)
+		coq = fmt.Sprintf("CSeq %s %d %s %s %d %s %s", coqNs(w.Init), w.Ver, calls, coqNs(w.Final), w.VerAfter, late, fresh)
 	} else {
 		kind = "hist"
-		coq = fmt.Sprintf("CHist %d %s %d %s %s %d [%s] %s %d", w.Threads, coqNs(w.Init), w.Ver, calls, coqNs(w.Final), w.VerAfter,
-			strings.Join(vs, "; "), late, w.Overlaps)
+		coq = fmt.Sprintf("CHist %d %s %d %s %s %d [%s] %s %d %s", w.Threads, coqNs(w.Init), w.Ver, calls, coqNs(w.Final), w.VerAfter,
+			strings.Join(vs, "; "), late, w.Overlaps, fresh)
 	}
 	nontriv := false
 	if w.Threads >= 2 {
@@ -620,7 +671,7 @@ func toCase(w *windowD, kindPrefix string) hx.Case {
 			}
 		}
 	}
-	key := w.Shape.Name + "|" + fmt.Sprint(w.Init) + "|" + calls + "|" + strings.Join(vs, ";") + "|" + late
+	key := w.Shape.Name + "|" + fmt.Sprint(w.Init) + "|" + calls + "|" + strings.Join(vs, ";") + "|" + late + "|" + fresh
 	return hx.Case{Kind: kindPrefix + kind, Desc: w, Coq: coq, Nontriv: nontriv, Key: key}
 }
 
@@ -669,6 +720,24 @@ func stats(run *hx.Run, w *windowD) {
 	}
 	if w.Overlaps > 0 {
 		run.Count("window:concurrent-node-evaluation")
+	}
+	for _, f := range w.Fresh {
+		run.Count("fresh-instance-compare:" + w.Shape.Prods[f.Prod].Kind + "-producer")
+		if !respEq(f.Live, f.Fresh) {
+			run.Count("fresh-instance-mismatch")
+		}
+	}
+	for _, n := range w.Shape.Nodes {
+		if n.Kind == "fshow" {
+			run.Count("window:with-failing-nodes")
+			break
+		}
+	}
+	for _, pr := range w.Shape.Prods {
+		if pr.Kind == "gltf" {
+			run.Count("window:with-gltf-scene")
+			break
+		}
 	}
 	for _, t := range w.Shape.PTypes {
 		if t == "file" || t == "ints" {
@@ -720,7 +789,7 @@ func main() {
 				nw.Init, nw.Final, nw.Timeout = w.Init, w.Init, true
 				finishWindow(nw, []rec{stuckRead(clock)})
 			} else {
-				oneWindow(g, nw, clock)
+				oneWindow(g, nw, -1, clock)
 			}
 			if nw.flagged() {
 				reproduced++
@@ -796,9 +865,12 @@ func main() {
 		for k := 0; k < nwin && len(windows) < run.N; k++ {
 			w := &windowD{Shape: shape, Threads: T, Jitter: jl, Init: cur, Ver: ver}
 			w.Progs = genPrograms(r, g, T, cur, *unlockedReads)
-			oneWindow(g, w, clock)
+			oneWindow(g, w, -1, clock)
 			windows = append(windows, w)
 			cur, ver = w.Final, w.VerAfter
+			if w.flagged() && !w.Timeout {
+				break // the instance may be left in a corrupt state: later windows would only repeat the symptom
+			}
 			if w.Timeout {
 				if wedged++; wedged >= 4 {
 					run.N = len(windows) // a wedged implementation: a few reports are enough
